@@ -147,7 +147,7 @@ def check(ctx, run):
         if not ok:
             run.fail(Finding("C12.R2", pf.qualname, "; ".join(problems), "the derivative does not evaluate its payoff functional on its own underlier, strike and call flag", file=str(prog.modules[pf.module].path), line=pf.node.lineno))
     # ---- R3 clause fold
-    pay = prog.functions.get(D + "base.BaseDerivative.payoff")
+    pay = prog.method(D + "base.BaseDerivative.payoff")
     if pay is None:
         raise AnalysisError("anchor vanished: BaseDerivative.payoff")
     d = W.option()
@@ -161,7 +161,7 @@ def check(ctx, run):
         run.fail(Finding("C12.R3", pay.qualname, str(v)[:200], "payoff() must apply every clause once, in iteration order, starting from payoff_fn()", file=str(prog.modules[pay.module].path), line=pay.node.lineno))
     # iteration order = insertion order: clauses()/named_clauses() iterate _clauses without reordering; add_clause only stores by key
     for name in ("clauses", "named_clauses", "add_clause"):
-        fi = prog.functions.get(D + f"base.BaseDerivative.{name}")
+        fi = prog.method(D + f"base.BaseDerivative.{name}")
         if fi is None:
             raise AnalysisError(f"anchor vanished: BaseDerivative.{name}")
         bad = [ast.unparse(n)[:60] for n in ast.walk(fi.node) if isinstance(n, ast.Call) and ast.unparse(n.func).split(".")[-1] in ("sorted", "reversed", "sort", "reverse", "move_to_end", "popitem", "insert", "shuffle")]
